@@ -764,6 +764,19 @@ const SOUP_TOKENS: [&str; 88] = [
 ];
 
 pub fn soup(rng: &mut Rng) -> String {
+    if rng.chance(1, 4) {
+        // hostile tokens as the value of a supported property inside a well-formed rule
+        let prop = *rng.pick(&["color", "background-color", "background", "display", "height", "white-space", "content", "overflow"]);
+        let mut v = String::new();
+        for _ in 0..rng.range(1, 3) {
+            v.push_str(*rng.pick(&SOUP_TOKENS));
+            if rng.chance(1, 2) {
+                v.push(' ');
+            }
+        }
+        let sel = *rng.pick(&["p", ".c1", "*", "#i0", "p::before", "li:nth-child(2)"]);
+        return format!("{} {{ {}: {}{} }}", sel, prop, v, rng.pick(&[";", "", " !important;", ";;"]));
+    }
     let n = rng.range(1, 30);
     let mut s = String::new();
     for _ in 0..n {
